@@ -117,6 +117,7 @@ class Scheduler(object):
         t = LThread(self, tid, fn, name or "t%d" % tid, daemon)
         t.free = free
         t.only_at = only_at
+        t.proc = getattr(_tls, "lthread", None) and getattr(_tls.lthread, "proc", None)   # process context is inherited
         self.threads.append(t)
         t.real = _real_threading.Thread(target=self._bootstrap, args=(t,), name="L-" + t.name)
         t.real.daemon = True
